@@ -973,12 +973,79 @@ func parseCase(line string) *Case {
 	return &Case{ID: f[0], Text: string(b), Path: parsePath(f[2])}
 }
 
+// an object of 17..40 members in which the key at position pos (first / middle / last) occurs a second time,
+// possibly wrapped in an array or an object; the path addresses the duplicated key
+func (g *gen) dupBig() (*T, []Sel) {
+	n := 17 + g.r.Intn(24)
+	t := &T{K: '{'}
+	for i := 0; i < n; i++ {
+		t.Keys = append(t.Keys, fmt.Sprintf("m%d", i))
+		t.A = append(t.A, &T{K: 'N', S: strconv.Itoa(100 + i)})
+	}
+	pos := []int{0, 0, n / 2, n - 1}[g.r.Intn(4)]
+	other := g.r.Intn(n)
+	for other == pos {
+		other = g.r.Intn(n)
+	}
+	if pos == 0 && g.r.Bool() {
+		other = n - 1
+	}
+	t.Keys[other] = t.Keys[pos]
+	t.A[other] = &T{K: 'S', S: "second"}
+	if other < pos {
+		t.A[other], t.A[pos] = &T{K: 'N', S: strconv.Itoa(100 + other)}, &T{K: 'S', S: "second"}
+	}
+	key := t.Keys[pos]
+	switch g.r.Intn(3) {
+	case 0:
+		return t, []Sel{{Key: key, IsKey: true}}
+	case 1:
+		return &T{K: '[', A: []*T{{K: 'Z'}, t}}, []Sel{{Idx: 1}, {Key: key, IsKey: true}}
+	default:
+		return &T{K: '{', Keys: []string{"a", "o"}, A: []*T{{K: 'T'}, t}}, []Sel{{Key: "o", IsKey: true}, {Key: key, IsKey: true}}
+	}
+}
+
+// a wide, shallow document: thousands of empty / one-element containers as siblings (depth accounting of the traverser)
+func (g *gen) wide() *T {
+	n := 5000 + g.r.Intn(1500)
+	kind := g.r.Intn(4)
+	root := &T{K: '['}
+	for i := 0; i < n; i++ {
+		var c *T
+		switch (kind + i*(kind&1)) % 4 {
+		case 0:
+			c = &T{K: '['}
+		case 1:
+			c = &T{K: '{'}
+		case 2:
+			c = &T{K: '[', A: []*T{{K: 'N', S: "1"}}}
+		default:
+			c = &T{K: '{', Keys: []string{"tags"}, A: []*T{{K: '['}}}
+		}
+		if g.r.Chance(1, 2) {
+			c = &T{K: '{', Keys: []string{"id", "tags"}, A: []*T{{K: 'N', S: strconv.Itoa(i)}, c}}
+		}
+		root.A = append(root.A, c)
+	}
+	if g.r.Bool() {
+		return &T{K: '{', Keys: []string{"records"}, A: []*T{root}}
+	}
+	return root
+}
+
 func genCase(id int, r *rng.R) *Case {
 	g := &gen{r: r, keys: mkKeys(r), dup: r.Chance(1, 3)}
 	var doc *T
-	if r.Chance(1, 15) {
+	var forced []Sel
+	switch {
+	case id%1500 == 11 || id%1500 == 700:
+		doc = g.wide()
+	case r.Chance(1, 20):
+		doc, forced = g.dupBig()
+	case r.Chance(1, 15):
 		doc = g.scalar()
-	} else {
+	default:
 		doc = g.container(r.Intn(3) > 0, sizes[r.Intn(len(sizes))], 0)
 	}
 	var sb strings.Builder
@@ -991,7 +1058,11 @@ func genCase(id int, r *rng.R) *Case {
 		panic("harness: generated an invalid document: " + text)
 	}
 	_ = bytes.MinRead
-	return &Case{ID: fmt.Sprintf("c%d", id), Text: text, Path: g.path(doc)}
+	path := forced
+	if path == nil {
+		path = g.path(doc)
+	}
+	return &Case{ID: fmt.Sprintf("c%d", id), Text: text, Path: path}
 }
 
 func main() {
